@@ -8,8 +8,8 @@
    ([regs_wf]) and the CFI oracle only returns register values that fit (they went through
    C::Register::try_from in CfiStackWalker). *)
 From Coq Require Import Lia ZArith List.
-From RM Require Import C05.Model C05.ModelTail C05.Proofs C05.ProofsTail C05.Driver C05.ProofsModules C05.ProofsCfi.
-From RM Require C06.Model.
+From RM Require Import C05.Model C05.ModelTail C05.Proofs C05.ProofsTail C05.Driver C05.ProofsModules C05.ProofsCfi C05.ProofsFunction.
+From RM Require C06.Model C11.Model C11.Proofs2.
 Import ListNotations.
 Open Scope Z_scope.
 
@@ -282,6 +282,36 @@ Theorem c05_generated_mips64 : walker_facts_gen mips64 mips_gcf_tail.
 Proof. exact (walker_facts_gen_of mips64 mips_gcf_tail arch_ok_mips64 tail_pinned_mips64). Qed.
 Print Assumptions c05_generated_mips64.
 
+(* ---- round 5: "a frame's module and function, when present, cover its address", end to end through C08 and C11.
+   For EVERY frame f of a walk (any architecture description with arch_ok, any oracles): the module
+   fill_source_line_info attaches is [frame_module mods f] (C08's range map over the module list); if it is module i =
+   (b, s, _) then b <= instruction < b + s, and what SymbolFile::fill_symbol does for that module's symbol file
+   [files i] at that instruction -- C11's model [symbolize], for any well-formed file, either build profile -- returns,
+   and a function it sets (name, base) is a FUNC record of that very file with base = b + addr and
+   base <= instruction < base + size, or a PUBLIC record of it with base = b + addr <= instruction. *)
+Theorem c05_function_covers :
+  forall p q a os mem module_at max_module_addr cfi_walk instr_valid (mods : list modspec) (files : Z -> C11.Model.raw_file),
+    arch_ok a -> mem_wf mem ->
+    (forall callee gc fwd r v, cfi_walk callee gc fwd = Some (r, v) -> regs_wf a r) ->
+    Forall (fun m => 0 <= fst (fst m) /\ 0 <= snd (fst m)) mods ->
+    (forall i, C11.Proofs2.wf_file (files i)) ->
+    forall fuel r v fs, regs_wf a r ->
+      walk_stack current_code p a os mem module_at max_module_addr cfi_walk instr_valid fuel r v = Ret fs ->
+      Forall (fun f => forall i, frame_module mods f = Some i ->
+                exists b s y, nth_error mods (Z.to_nat i) = Some (b, s, y) /\ b <= f_instr f < b + s /\
+                  exists o, C11.Model.symbolize q (files i) b (f_instr f) = Ret o /\
+                    forall name base ps, C11.Model.o_func o = Some (name, base, ps) ->
+                      base <= f_instr f /\
+                      ((exists fr, In fr (C11.Model.rf_funcs (files i)) /\ name = C11.Model.fr_name fr /\
+                                   base = b + C11.Model.fr_addr fr /\ f_instr f < base + C11.Model.fr_size fr)
+                       \/ (exists pb, In pb (C11.Model.rf_publics (files i)) /\ name = C11.Model.p_name pb /\
+                                      base = b + C11.Model.p_addr pb))) fs.
+Proof.
+  intros p q a os mem ma mm cw iv mods files Ha Hm Hc Hmods Hfiles fuel r v fs Hr H.
+  exact (walk_functions_cover p q a os mem ma mm cw iv mods files Ha Hm Hc Hmods Hfiles fuel r v fs Hr H).
+Qed.
+Print Assumptions c05_function_covers.
+
 (* ---- the refutations that led to the repairs in /repo (kept checkable: [code_before_fixes]) *)
 Definition w_cfi_never_reads (callee : frame) (_ : option frame) (_ : list Z) : option (regs * list Z) :=
   let sp := r_sp (f_regs callee) in
@@ -380,3 +410,23 @@ Example c05_nonvacuous_generated_walk :
       = Ret [f0; f1; f2] /\
     f_trust f1 = TFramePointer /\ f_resume f1 = 127546570047744 /\ f_instr f2 = 127546570048000 - 1 /\ r_sp (f_regs f2) = 2147483696.
 Proof. eexists; eexists; eexists. split; [vm_compute; reflexivity|]. cbn. repeat split; reflexivity. Qed.
+
+(* c05_function_covers is not vacuous: a walked frame inside a module whose symbol file has FUNC 100 100 gets that function *)
+Definition nv_file : C11.Model.raw_file :=
+  C11.Model.mk_raw [] [] [] [C11.Model.mk_fraw 256 256 0 102 [] []] [] [].
+Definition nv_fmods : list modspec := [(127546570047488, 65536, None)].
+Definition nv_fframe : frame :=
+  {| f_instr := 127546570047788; f_resume := 127546570047789; f_trust := TFramePointer; f_regs := regs0; f_valid := VAll |}.
+Example c05_nonvacuous_function :
+  C11.Proofs2.wf_file nv_file /\
+  frame_module nv_fmods nv_fframe = Some 0 /\
+  exists o, C11.Model.symbolize Debug nv_file 127546570047488 (f_instr nv_fframe) = Ret o /\
+            C11.Model.o_func o = Some (102, 127546570047488 + 256, 0).
+Proof.
+  split.
+  { unfold C11.Proofs2.wf_file, nv_file; cbn [C11.Model.rf_funcs C11.Model.rf_publics C11.Model.rf_win_fd C11.Model.rf_win_fpo].
+    repeat split; try constructor; try constructor;
+      unfold C11.Proofs2.wf_fraw, C11.Proofs2.u64, C11.Proofs2.u32; cbn; repeat split; try constructor; try lia; try reflexivity. }
+  split; [vm_compute; reflexivity|].
+  eexists. split; vm_compute; reflexivity.
+Qed.
